@@ -44,6 +44,7 @@ type vAckEv struct {
 	id    int
 	fol   int
 	ok    bool
+	code  int // K: the result byte of a follower's NEGATIVE answer (0 = RESULT_ERROR); what a failed replay on the follower's own table sends (TIMEOUT, LOCKED_ERROR, ...) fails the record just the same
 	order []int
 }
 
@@ -61,6 +62,9 @@ func (e vAckEv) String() string {
 	case "A":
 		return fmt.Sprintf("A %d %s", e.id, vv01a(e.ok))
 	case "K":
+		if !e.ok && e.code != 0 {
+			return fmt.Sprintf("K %d %d %d", e.id, e.fol, e.code) // the model reads anything but "1" as a negative answer
+		}
 		return fmt.Sprintf("K %d %d %s", e.id, e.fol, vv01a(e.ok))
 	case "R", "X":
 		return fmt.Sprintf("%s %s", e.kind, vv01a(e.ok))
@@ -439,6 +443,8 @@ func (x *vAckRun) apply(e *vAckEv) string {
 		res.DbId = 0
 		if e.ok {
 			res.Result = protocol.RESULT_SUCCED
+		} else if e.code != 0 {
+			res.Result = uint8(e.code)
 		} else {
 			res.Result = protocol.RESULT_ERROR
 		}
@@ -674,6 +680,9 @@ func vAckParseEv(s string) (vAckEv, bool) {
 		e.id, e.ok = atoi(f[1]), f[2] == "1"
 	case "K":
 		e.id, e.fol, e.ok = atoi(f[1]), atoi(f[2]), f[3] == "1"
+		if !e.ok && f[3] != "0" {
+			e.code = atoi(f[3])
+		}
 	case "R", "X":
 		e.ok = f[1] == "1"
 	case "T", "S", "D", "F":
@@ -886,7 +895,12 @@ func (g *vAckGen) step() {
 			}
 			g.ackedSent[[2]int{id, fol}] = true
 		}
-		x.do(vAckEv{kind: "K", id: id, fol: fol, ok: r.Intn(100) < 85})
+		ev := vAckEv{kind: "K", id: id, fol: fol, ok: r.Intn(100) < 85}
+		if !ev.ok && r.Intn(2) == 0 {
+			// the follower's own engine refused the replayed record: its result byte travels back unchanged
+			ev.code = []int{protocol.RESULT_TIMEOUT, protocol.RESULT_LOCKED_ERROR, protocol.RESULT_STATE_ERROR, protocol.RESULT_UNLOCK_ERROR, protocol.RESULT_UNOWN_ERROR}[r.Intn(5)]
+		}
+		x.do(ev)
 	case c < 93:
 		x.do(vAckEv{kind: "S"})
 	case c < 96:
